@@ -10,7 +10,7 @@ def run(ck):
         'Decides only the decoder clause of the property: every checked field decoder (from_repr, from_bytes[_le/_be], from_u64s_le, SerdeObject::from_raw_bytes / '
         'read_raw) of the BLS12-381 scalar and base fields, Fp2, the Jubjub scalar field, Curve25519 and secp256k1 base fields reaches the modulus comparison of '
         'its type, uses its result and returns failures instead of unwrapping; and (R2) each modulus comparison itself is STRICT (x < p, never x <= p), in one of '
-        'the recognised forms. All arithmetic, constants, tower construction, square roots and uniform reduction '
+        'the recognised forms (borrow chain, most-significant-first scan, strict `<`). All arithmetic, constants, tower construction, square roots and uniform reduction '
         'are numerical and NOT decided by static analysis.')
     ck.rule('C10.R1', 'CHECKED(field decoders): call closure contains the canonicity validator, its result is live, no unwrap in the decoder')
     n = checked.check_rows(ck, w, 'C10.R1', tables.C10_DECODERS)
